@@ -26,7 +26,7 @@ def gen_points(rng, kind, ndim, n):
             c = rng.choice(cs)
             pts.append(tuple(Fraction(c[d]) + Fraction(rng.randint(-6, 6), 4) for d in range(ndim)))
     elif kind == 'collinear':
-        dirv = rng.choice([(1, 0, 0), (0, 1, 0), (1, 1, 0), (1, -1, 1), (2, 1, 0)])[:ndim]
+        dirv = rng.choice([(1, 0, 0, 0), (0, 1, 0, 1), (1, 1, 0, 0), (1, -1, 1, 2), (2, 1, 0, -1)])[:ndim]
         if not any(dirv): dirv = (1,) * ndim
         base = tuple(rng.randint(-2, 2) for _ in range(ndim))
         for _ in range(n):
@@ -350,15 +350,19 @@ def run(ctx):
     if summary_obs:
         ctx.notes.append('NeighMoving::summary vs the samples actually kept (observation, not part of the verdict): columns differing in %s cases; first examples %s' % (summary_obs, summary_ex))
     # ------------------------------------------------------------------ part B : ball-tree KNN
-    kcases = [c for c in load_corpus(ctx) if c[0] == 1]
-    ntree = 60 if quick else 900
+    kcorpus = [c for c in load_corpus(ctx) if c[0] == 1]
+    kgen = []
+    ntree = 72 if quick else 1000
     for i in range(ntree):
-        nf = rng.choice([1, 2, 2, 3])
+        nf = rng.choice([1, 2, 2, 3, 3, 4])
         n = rng.choice([1, 2, 3, 5, 8, 13, 21, 34, 60] if quick else [1, 2, 3, 5, 8, 13, 21, 34, 60, 100, 200, 400])
         kind = rng.choice(['lattice', 'grid', 'cluster', 'collinear', 'dyadic'])
         pts = gen_points(rng, kind, nf, n); n = len(pts)
         leaf = rng.choice([1, 1, 2, 3, 5, 10, 40, max(1, n), max(1, n // 2)])
-        metric = 2 if rng.random() < .7 else 1
+        metric = 2 if rng.random() < .6 else 1
+        ctor = rng.choice([0, 1, 2, 3])
+        # default space: set to the data dimension / left at (or put back to) the library default 2 / never defined
+        spacemode = 2 if i < ntree // 6 else rng.choice([0, 1, 1])
         qs = []
         for _ in range(5):
             r = rng.random()
@@ -367,8 +371,12 @@ def run(ctx):
             else: q = tuple(Fraction(rng.randint(-48, 48), 8) for _ in range(nf))
             k = rng.choice([1, 1, 2, 3, 5, 7, 8, 12, n, max(1, n - 1), rng.randint(1, n), n + 1 if rng.random() < .15 else 1])
             qs.append([[dy(v) for v in q], k])
-        kcases.append([1, metric, leaf, [[dy(v) for v in q] for q in pts], qs])
+        kgen.append([1, metric, leaf, [[dy(v) for v in q] for q in pts], qs, [ctor, spacemode]])
         ctx.dist('knn_' + kind); ctx.dist('knn_metric_%d' % metric); ctx.dist('knn_leaf_%s' % ('1' if leaf == 1 else 'n' if leaf >= n else 'mid'))
+        ctx.dist('knn_ndim_%d' % nf); ctx.dist('knn_ctor_%d' % ctor); ctx.dist('knn_space_%s' % ['=ndim', 'default2', 'never-defined'][spacemode])
+    # the cases that must see a process in which defineDefaultSpace was never called come first
+    kcases = [c for c in kgen if c[5][1] == 2] + [c for c in kcorpus if len(c) > 5 and c[5][1] == 2] + \
+             [c for c in kcorpus if not (len(c) > 5 and c[5][1] == 2)] + [c for c in kgen if c[5][1] != 2]
     kf_ = write_cases(ctx, 'knn', kcases)
     rc_i, kimpl = run_impl(ctx, exe, kf_)
     rc_m, kmodel = run_model(ctx, runner, kf_)
@@ -387,8 +395,8 @@ def run(ctx):
         for qi, (qq, k) in enumerate(c[4]):
             q = [undy(v) for v in qq]
             m_part, s_d, s_i, tie = mi[qi]
-            i_d, i_idx, i_closest = ii[qi]
-            one = [1, metric, leaf, c[3], [[qq, k]]]
+            i_d, i_idx, i_closest, i_var = ii[qi]
+            one = [1, metric, leaf, c[3], [[qq, k]]] + ([c[5]] if len(c) > 5 else [])
             ctx.count(sx_str(one), nontrivial=(n > 1))
             ctx.sample({'case': sx_str(one)[:300], 'impl': [i_d, i_idx], 'spec': [s_d, s_i]}, maxn=6)
             if k > n:
@@ -412,11 +420,18 @@ def run(ctx):
                 elif sorted(tr) != sd: problem = ('knn:wrong-neighbours', 'returned neighbours %s (distances %s) are not the %d nearest (distances %s)' % (i_idx, [str(x) for x in tr], k, [str(x) for x in sd]))
                 elif tr != sorted(tr): problem = ('knn:result-not-sorted', 'neighbours are not in increasing distance order: %s' % [str(x) for x in tr])
                 elif k == 1 and i_closest != i_idx[0] and dtrue(pts[i_closest]) != tr[0]: problem = ('knn:queryClosest', 'queryClosest returns %d, queryOneAsVD %d' % (i_closest, i_idx[0]))
+            if problem is None and len(i_idx) == k:
+                for vname, vv in zip(('queryOne', 'queryAsVVD', 'queryOneInPlace', 'getIndices(SpacePoint)'), i_var):
+                    if vv == [-2]: continue      # SpacePoint of another dimension than the default space: not applicable
+                    if vv != i_idx and not (tie or len(set(str(x) for x in s_d)) < len(s_d)):
+                        problem = ('knn:variant:' + vname, '%s returns %s, queryOneAsVD %s' % (vname, vv, i_idx)); break
+                    if sorted(vv) != sorted(i_idx) and not tie:
+                        problem = ('knn:variant:' + vname, '%s returns %s, queryOneAsVD %s' % (vname, vv, i_idx)); break
             if problem:
                 ndis += 1; found_input = True
                 key, text = problem
                 small = shrink_knn(ctx, exe, runner, one, key) if not (any(v[0] == key for v in ctx.violations) or any(kk == key for kk, _ in ctx.known)) else one
-                ctx.violation(key, 'Ball::queryOneAsVD (metric %d, leaf_size %d, k=%d, n=%d): %s' % (metric, leaf, k, n, text), {'case': sx_str(small)})
+                ctx.violation(key, 'Ball::queryOneAsVD (metric %d, leaf_size %d, k=%d, n=%d, ndim=%d, constructor %s, default space %s): %s' % (metric, leaf, k, n, len(c[3][0]) if c[3] else 0, (c[5][0] if len(c) > 5 else 0), (['=ndim', '2', 'never defined'][c[5][1]] if len(c) > 5 else '=ndim'), text), {'case': sx_str(small)})
             if m_part != [] and m_part != [-1]:
                 # exact replay of tree walk + heap + sort (Manhattan: distances exact; Euclidean: the model carries squared
                 # distances and decides the square-root comparisons on squares)
@@ -513,7 +528,7 @@ def knn_problem_key(ctx, exe, runner, one):
     metric = one[1]; pts = [[undy(v) for v in q] for q in one[3]]; n = len(pts)
     qq, k = one[4][0]; q = [undy(v) for v in qq]
     if k > n: return None
-    i_d, i_idx, _ = im[0][0]; _, s_d, s_i, tie = mo[0][0]
+    i_d, i_idx = im[0][0][0], im[0][0][1]; _, s_d, s_i, tie = mo[0][0]
     dtrue = (lambda a: sum(abs(x - y) for x, y in zip(q, a))) if metric == 2 else (lambda a: sum((x - y) ** 2 for x, y in zip(q, a)))
     if len(i_idx) != k or any(j < 0 or j >= n for j in i_idx) or len(set(i_idx)) != k: return 'knn:structure'
     tr = [dtrue(pts[j]) for j in i_idx]
@@ -531,12 +546,12 @@ def shrink_knn(ctx, exe, runner, one, key):
                 pts = cur[3][:a] + cur[3][a + step:]
                 if len(pts) < 1: continue
                 for kk in ([k] if k <= len(pts) else []) + ([len(pts)] if k > len(pts) else []):
-                    cand = [1, cur[1], cur[2], pts, [[cur[4][0][0], kk]]]
+                    cand = [1, cur[1], cur[2], pts, [[cur[4][0][0], kk]]] + cur[5:]
                     if knn_problem_key(ctx, exe, runner, cand) == key: nxt = cand; break
                 if nxt: break
             if nxt: break
         if nxt is None and k > 1:
-            cand = [1, cur[1], cur[2], cur[3], [[cur[4][0][0], k - 1]]]
+            cand = [1, cur[1], cur[2], cur[3], [[cur[4][0][0], k - 1]]] + cur[5:]
             if knn_problem_key(ctx, exe, runner, cand) == key: nxt = cand
         if nxt is None: break
         cur = nxt
